@@ -518,8 +518,27 @@ def main():
         if g["rc"] != 0 and sub in cfg.get("needs_gen", props.DEFAULT_NEEDS_GEN) and not (sub == "formulas" and not lean["failed"]):
             broken.append(f"translator:{sub}: " + g["out"].strip().split("\n")[0][:300])
     if st.get("harness", {}).get("edgo", {}).get("rc") != 0:
-        print("harness does not build against /repo:\n" + st["harness"]["edgo"]["out"])
-        return 2
+        # the correspondence harness reaches into the package through two injected files (harness/inject); when the tree no longer
+        # compiles with them (an internal name they export was renamed or removed) the correspondence of EVERY property is broken:
+        # nothing can be executed, so no failing input can be searched for - reported as the brief prescribes
+        err = st["harness"]["edgo"]["out"].strip()
+        first = next((l for l in err.split("\n") if l.strip() and not l.startswith("#")), err[:300])
+        print("harness does not build against /repo:\n" + err[-3000:])
+        names = list(broken) + (["lean: " + ", ".join(lean["failed"])] if lean["failed"] else []) + \
+            [f"correspondence: harness/inject does not compile against the tree ({first.strip()[:300]}); implementation cannot be executed"]
+        obj = replay_obj(pid, "no-failing-input-found", None, [], names, seed, st)
+        path = write_replay(pid, obj)
+        ev = {"property_id": pid, "tier": tier if tier in ("quick", "thorough") else "quick", "seed": seed, "level": cfg["level"],
+              "coverage": {"evaluations": 0, "distinct_nontrivial": 0, "rule": "nothing could be executed: the correspondence harness does not compile against the tree",
+                           "samples": [{"note": first.strip()[:300]}], "obligations": lean["obligations"], "discharged": lean["discharged"],
+                           "checker_cmd": lean["checker_cmd"] or "n/a", "trusted_base": props.TRUSTED_BASE + cfg.get("trusted_extra", []),
+                           "property_theorems": lean["theorems"], "axioms": lean["axioms"], "lean_modules": lean["modules"],
+                           "programs": 0, "disagreements_checked": 0, "correspondence": "unavailable", "tree_hash": st.get("tree_hash"), "log": logs[-40:]},
+              "assumptions": cfg.get("assumptions", []) + props.COMMON_ASSUMPTIONS, "wall_s": 0.0, "violations": 1}
+        write_evidence(pid, ev)
+        print(f"  {names[-1][:400]}")
+        print(f"VIOLATION property={pid} replay={path} no-failing-input-found")
+        return 1
     if lean["failed"]:
         broken.append("lean: " + ", ".join(lean["failed"]))
     for m, hits in lean["forbidden"].items():
